@@ -132,6 +132,24 @@ def run_seq(ctx, segs, full):
            rfc.remove_dot_segments(pct25(p)), True)
     ctx.ev(sig("with_path_noauth"))
     verify(ctx, "with_path_noauth", {"entry": "with_path_noauth", "segs": segs, "path": p}, guarded(lambda: URL("/x/y").with_path(p)), pct25(p), False)
+    # suffix removal / renaming must never leave a dot segment under an authority
+    if segs:
+        bu = guarded(URL, "http://h/x/" + lit(joined))
+        if not is_exc(bu):
+            for nm, fn in (("with_suffix_empty", lambda: bu.with_suffix("")), ("with_suffix_x", lambda: bu.with_suffix(".x")), ("with_name_last", lambda: bu.with_name(segs[-1])),
+                           ("parent", lambda: bu.parent), ("with_name_dotstem", lambda: bu.with_name("..q").with_suffix(""))):
+                r = guarded(fn)
+                ctx.ev(sig(nm))
+                if is_exc(r):
+                    if r.type != "ValueError":
+                        ctx.fail("unexpected_exception", {"entry": nm, "segs": segs}, f"{nm} raised {r!r}")
+                    continue
+                if has_dot_segment(r.raw_path):
+                    ctx.fail("dot_segment_survives", {"entry": nm, "segs": segs, "base": str(bu)}, f"{nm}: raw_path={r.raw_path!r} has a dot segment under an authority")
+                else:
+                    s2 = guarded(URL, str(r))
+                    if is_exc(s2) or s2.raw_path != r.raw_path:
+                        ctx.fail("not_idempotent", {"entry": nm, "segs": segs, "base": str(bu)}, f"{nm}: {str(r)!r} re-parses with path {getattr(s2, 'raw_path', s2)!r}")
     if not full:
         return
     # 8-10 '/' and joinpath on several bases
